@@ -115,6 +115,9 @@ def run_job(cpath, job, outdir, tier='quick'):
     if rc == -9:
         res['status'] = 'timeout'; res['detail'] = f'cbmc exceeded {timeout}s'; return res
     try:
+        open(os.path.join(outdir, name + '.cbmc.json'), 'w').write(out)
+    except Exception: pass
+    try:
         js = json.loads(out)
     except Exception:
         res['status'] = 'error'; res['detail'] = 'cbmc output not JSON: ' + out[-1500:]; return res
